@@ -677,6 +677,89 @@ def sec_repeat_until_nested(ctx, rng, case):
                 "cut_mass": ex.cut_mass})
 
 
+def sec_if_nested(ctx, rng, case):
+    """cirq.If whose body is a tree (so that it becomes a nested sub-circuit) holding an operation that is itself classically
+    controlled, inside a scoped sub-circuit: the inner condition binds to the key measured in the same repetition, never to a
+    same-named key at root scope - exactly like the flattened program."""
+    import cirq
+
+    n = 4
+    dims = (2,) * n
+    qubits = P.make_qubits(rng, dims)
+    qa, qb, q1, q2 = (int(x) for x in rng.permutation(n))
+    if rng.random() < 0.3:
+        q1 = qa   # the guarded operation may act on a measured qubit
+    pa, pb = float(rng.uniform(0.3, 0.7)), float(rng.uniform(0.3, 0.7))
+    scope = str(rng.choice(["repetitions", "repetition_ids", "parent_path", "repetitions+path"]))
+    if scope == "repetitions":
+        okw, prefixes = dict(repetitions=2, use_repetition_ids=True), ["0:", "1:"]
+    elif scope == "repetition_ids":
+        okw, prefixes = dict(repetitions=2, repetition_ids=["x", "y"], use_repetition_ids=True), ["x:", "y:"]
+    elif scope == "parent_path":
+        okw, prefixes = dict(parent_path=("p",)), ["p:"]
+    else:
+        okw, prefixes = dict(repetitions=2, use_repetition_ids=True, parent_path=("p",)), ["p:0:", "p:1:"]
+    decoy = str(rng.choice(["b", "a", "none", "b"]))
+    root_pre = []
+    if decoy != "none":
+        # a same-named key at root scope with a definite value (0, or 1 after a flip)
+        if rng.random() < 0.5:
+            root_pre.append({"t": "U", "spec": "ry", "p": (np.pi,), "w": (qb if decoy == "b" else qa,)})
+        root_pre.append({"t": "M", "key": decoy, "w": (qb if decoy == "b" else qa,)})
+    meas = [{"t": "U", "spec": "ry", "p": (pa * np.pi,), "w": (qa,)}, {"t": "M", "key": "a", "w": (qa,)},
+            {"t": "U", "spec": "ry", "p": (pb * np.pi,), "w": (qb,)}, {"t": "M", "key": "b", "w": (qb,)}]
+    g1 = {"t": "U", "spec": "ry", "p": (np.pi,), "w": (q1,)}
+    g2 = P.gen_unitary_step(rng, dims, arity_w=(0.0, 1.0, 0.0, 0.0))
+    g2 = dict(g2, w=(q2,))
+    body_ops = [P.step_to_op(g1, qubits).with_classical_controls("b"), P.step_to_op(g2, qubits)]
+    if rng.random() < 0.5:
+        body_ops.reverse()
+    if_op = cirq.If("a", *body_ops) if rng.random() < 0.5 else cirq.If("a", body_ops)
+    inner = cirq.FrozenCircuit(P.to_moments(meas, qubits, rng, "greedy") + [cirq.Moment(if_op)])
+    outer = cirq.CircuitOperation(inner, **okw)
+    form = str(rng.choice(["nested", "outer-unrolled", "deep-unrolled"]))
+    if form == "nested":
+        mid = [cirq.Moment(outer)]
+    else:
+        mid = list(outer.mapped_circuit(deep=(form == "deep-unrolled")).moments)
+    post = [{"t": "M", "key": "z", "w": tuple(range(n))}]
+    circuit = cirq.Circuit(P.to_moments(root_pre, qubits, rng, "greedy") + mid + P.to_moments(post, qubits, rng, "greedy"))
+    wit = dict(scope=scope, form=form, decoy=decoy, qa=qa, qb=qb, q1=q1, q2=q2, second=P.describe([g2]), root_pre=P.describe(root_pre))
+    ck = sorted(map(str, cirq.control_keys(circuit)))
+    ctx.check(ck == [], "keys==flat", "C12:if-nested-unbound-control-keys",
+              "the circuit reports control keys %r although every key the conditions test is measured inside it" % ck, **wit)
+    # ---- reference: repetition by repetition
+    ref_steps = list(root_pre)
+    for pfx in prefixes:
+        ref_steps += [dict(s_, key=pfx + s_["key"]) if s_["t"] == "M" else s_ for s_ in meas]
+        ca = {"t": "key", "key": pfx + "a", "index": -1}
+        cb = {"t": "key", "key": pfx + "b", "index": -1}
+        guarded = [{"t": "C", "cond": ca, "cond2": cb, "inner": g1}, {"t": "C", "cond": ca, "inner": g2}]
+        ref_steps += guarded   # (the two act on different qubits or commute as a guarded pair: order inside the body is free)
+    ref_steps += post
+    if q1 == q2:
+        return
+    ref = I.distribution(I.run(P.to_ref(ref_steps), dims))
+    kind = ["sv", "sv-nosplit", "dm"][int(rng.integers(3))]
+    try:
+        ex = _explore_run(circuit, kind)
+    except ValueError as e:
+        from vf.worker import _blame
+        if _blame(e)[0] != "repo":
+            raise
+        ctx.check(False, "distribution==flat", "C12:if-nested-raised:" + type(e).__name__, "%s" % e, **wit)
+        return
+    if ex.over_budget:
+        ctx.event("explorer-over-budget")
+        return
+    tv = L.tv_distance(ex.distribution(), ref)
+    ctx.check(tv <= ex.cut_mass + 1e-6, "distribution==flat", "C12:if-nested-distribution:" + kind,
+              lambda: "outcome distribution differs from the repetition-by-repetition reference by TV %.3g" % tv, **wit)
+    ctx.event("if-nested:" + scope + ":" + form)
+    ctx.distinct((scope, form, decoy, qa, qb, q1, q2, round(pa, 3), round(pb, 3), kind, tuple(P.describe([g2]))), nontrivial=len(ref) >= 3)
+    ctx.sample({"scope": scope, "form": form, "decoy": decoy, "paths": len(ex.paths)})
+
+
 def sec_symbolic_reps(ctx, rng, case):
     """a sub-circuit whose repetition count is a symbol (or is replaced later): whatever was asked of the operation before,
     the resolved operation applies the body - or, for a negative count, its inverse - that many times"""
@@ -743,5 +826,6 @@ SECTIONS = [
     ("shadow", sec_shadow, 2500, 50000, 3.0),
     ("repeat_until", sec_repeat_until, 500, 10000, 2.0),
     ("repeat_until_nested", sec_repeat_until_nested, 300, 6000, 2.0),
+    ("if_nested", sec_if_nested, 300, 6000, 1.5),
     ("symbolic_reps", sec_symbolic_reps, 700, 12000, 1.0),
 ]
